@@ -578,6 +578,8 @@ def _explore(farm, mod, tier, verif_seed, budget_s, n_cases, fingerprints_out, t
         reported += 1
         rc = 1
     wall = time.monotonic() - t0
+    if harness:
+        cov.bump("cases_the_harness_could_not_judge", len(harness))
     write_evidence(prop, tier, verif_seed, mod.LEVEL, cov, mod.RULE, wall_explore, reported,
                    sorted(known_seen), farm.hello, getattr(mod, "ASSUMPTIONS", ()),
                    mod.extra_coverage(cov) if hasattr(mod, "extra_coverage") else None)
@@ -589,6 +591,10 @@ def _explore(farm, mod, tier, verif_seed, budget_s, n_cases, fingerprints_out, t
     if harness:
         for seed, msg in harness[:5]:
             log(f"HARNESS seed={seed}: {msg[:1500]}")
-        if rc == 0:
+        # a case the harness could not judge (a child that produced no record on an overloaded machine, say) is a case not
+        # explored: it is reported above and counted in the evidence; only when it stops being the exception does the
+        # run as a whole stop being a verdict
+        tolerated = max(3, cov.evaluations // 100)
+        if rc == 0 and len(harness) > tolerated:
             return 2
     return rc
